@@ -44,7 +44,9 @@ MODULES = ["nsf", "xsf", "covalent_radius", "crystal_structure", "magnetic_ff", 
 INIT_ENTRIES = ["mass.init", "density.init", "nsf.init", "xsf.init", "xsf.init_spectral_lines",
                 "covalent_radius.init", "crystal_structure.init", "magnetic_ff.init", "activation.init"]
 CALCS = ["neutron_sld", "neutron_scattering", "xray_sld", "volume", "activation", "list", "emission_table",
-         "sld_table", "D2O_sld", "fasta", "xray_f0", "magnetic"]
+         "sld_table", "D2O_sld", "fasta", "xray_f0", "magnetic", "xray_n", "xray_N", "xray_all_fwd", "xray_all_rev"]
+# calculators that are events only (too slow or redundant for the digest of every history)
+EVENT_ONLY_CALCS = ("xray_all_fwd", "xray_all_rev")
 
 
 NO_TABLE_CALCS = ("D2O_sld", "fasta")
@@ -244,6 +246,21 @@ def calc(name, table, public):
         return canon([T.Fe.xray.f0(2.0), T.Fe.ion[3].xray.f0(2.0), T.O.ion[-2].xray.f0(0.5)])
     if name == "magnetic":
         return canon([T.Fe.magnetic_ff[2].j0_Q(1.0), T.Fe.ion[2].magnetic_ff[3].M_Q(0.5)])
+    if name == "xray_n":       # the neutron has no x-ray table (and shares the file name n.nff with nitrogen)
+        return canon([T[0].xray.sftable, T[0].xray.scattering_factors(energy=8.0)])
+    if name == "xray_N":
+        return canon([T.N.xray.scattering_factors(energy=8.0), T.N[15].ion[3].xray.scattering_factors(energy=8.0)])
+    if name in ("xray_all_fwd", "xray_all_rev"):
+        # the scattering-factor table of every element, visited by increasing or decreasing Z:
+        # what is served must not depend on which element's table was loaded first
+        els = [el for el in T]
+        if name.endswith("rev"):
+            els = els[::-1]
+        seen = {}
+        for el in els:
+            t = el.xray.sftable
+            seen[el.number] = None if t is None else canon(t)
+        return _h(sorted(seen.items()))
     raise ValueError(name)
 
 
@@ -255,6 +272,8 @@ def public_digest(table, public=True):
         except Exception as e:  # noqa
             d[g] = "exc:%s:%s" % (type(e).__name__, str(e)[:80])
     for c in CALCS:
+        if c in EVENT_ONLY_CALCS:
+            continue
         if not public and c in NO_TABLE_CALCS:
             continue      # these calculators take no table argument
         try:
@@ -359,6 +378,15 @@ def do_event(w, ev):
     if kind == "pickle":
         o = w.obj(ev[1], ev[2])
         return pickle.loads(pickle.dumps(o)) is o
+    if kind == "lookup":
+        # ["lookup", how, key, tbl] -> which object a by-name/by-symbol/by-string lookup serves
+        t = w.table(ev[3])
+        a = getattr(t, ev[1])(ev[2])
+        z, iso, ch = a.number, getattr(a, "isotope", 0), a.charge
+        mine = t[z]
+        if iso:
+            mine = mine[iso]
+        return [repr(a), a.table, a is mine]
     if kind == "formula":
         import periodictable as pt
         t = w.table(ev[2])
@@ -602,25 +630,26 @@ def canonical_prelude():
             ["read", "magnetic_ff", "el+", "public"]]
 
 
-def canonical(events):
-    """Canonical observation of every event (each executed right after the
-    canonical prelude, in its own interpreter would be ideal; they are executed
-    in sequence after the prelude in one interpreter, and the digest taken
-    before and after must agree, which validates the shortcut) + digest."""
+def canonical(events, par=8):
+    """Canonical observation of every event: the event executed right after the canonical
+    prelude, each in its OWN interpreter (so that events cannot influence each other's canonical
+    observation), + the canonical digest.  The digest after prelude+event must equal the digest
+    after the prelude alone, for every event: the canonical order is stable under every event."""
     pre = canonical_prelude()
-    r0 = run_histories([pre], par=1)[0]
-    chunks = [events[i:i + 40] for i in range(0, len(events), 40)]
-    rs = run_histories([pre + c for c in chunks], par=8)
+    rs = run_histories([pre] + [pre + [e] for e in events], par=par)
+    r0 = rs[0]
+    if "error" in r0:
+        raise RuntimeError("canonical run failed: " + r0["error"])
     obs = {}
-    for c, r in zip(chunks, rs):
+    unstable = {}
+    for e, r in zip(events, rs[1:]):
         if "error" in r:
             raise RuntimeError("canonical run failed: " + r["error"])
-        if r["digest"]["public"] != r0["digest"]["public"]:
-            raise RuntimeError("canonical run is not stable under its own events: %r"
-                               % diff_digest(r0["digest"]["public"], r["digest"]["public"]))
-        for ev, o in zip(c, r["obs"][len(pre):]):
-            obs[ev_key(ev)] = o
-    return {"obs": obs, "digest": r0["digest"]["public"], "state": r0["state"]}
+        obs[ev_key(e)] = r["obs"][len(pre)]
+        d = diff_digest(r0["digest"]["public"], r["digest"]["public"])
+        if d:
+            unstable[ev_key(e)] = d
+    return {"obs": obs, "digest": r0["digest"]["public"], "state": r0["state"], "unstable": unstable}
 
 
 def ev_key(ev):
